@@ -52,6 +52,7 @@ structure CharRow where
   numeric : Bool
   up : Str
   lo : Str
+  esc : Str
 
 def lookup (t : List CharRow) (c : Char) : Option CharRow := t.find? fun r => r.cp = c.toNat
 
@@ -61,16 +62,17 @@ def opsOf (t : List CharRow) : CharOps where
   isNumeric := fun c => match lookup t c with | some r => r.numeric | none => Case.asciiOps.isNumeric c
   strLower := fun s => (s.map fun c => match lookup t c with | some r => r.lo | none => [Text.asciiLower c]).flatten
   strUpper := fun s => (s.map fun c => match lookup t c with | some r => r.up | none => [Text.asciiUpper c]).flatten
+  escDebug := fun c => match lookup t c with | some r => r.esc | none => Case.asciiEscDebug c
 
 def parseChars (j : Json) : List CharRow :=
   match j.getObjVal? "table" with
   | .ok (Json.arr rows) => rows.toList.filterMap fun r =>
     match r with
     | Json.arr a =>
-      if a.size = 6 then
-        match a[0]!.getNat?, a[1]!.getBool?, a[2]!.getBool?, a[3]!.getBool?, a[4]!.getStr?, a[5]!.getStr? with
-        | .ok cp, .ok u, .ok al, .ok nu, .ok up, .ok lo => some ⟨cp, u, al, nu, up.toList, lo.toList⟩
-        | _, _, _, _, _, _ => none
+      if a.size = 7 then
+        match a[0]!.getNat?, a[1]!.getBool?, a[2]!.getBool?, a[3]!.getBool?, a[4]!.getStr?, a[5]!.getStr?, a[6]!.getStr? with
+        | .ok cp, .ok u, .ok al, .ok nu, .ok up, .ok lo, .ok esc => some ⟨cp, u, al, nu, up.toList, lo.toList, esc.toList⟩
+        | _, _, _, _, _, _, _ => none
       else none
     | _ => none
   | _ => []
@@ -334,7 +336,17 @@ def handle (ops : CharOps) (j : Json) : Json :=
       let nb := Ts.norm D (gsl j "unfold") 40 (TsParse.bindParams psb bb)
       Json.mkObj [("ok", Json.bool (Ts.beq na nb))]
     | _, _ => Json.mkObj [("unparsed", Json.bool true)]
-  | "field_name" => Json.mkObj [("ok", S (Case.rawNameToTsField ops (gs j "s")))]
+  | "field_name" =>
+    let out := Case.rawNameToTsField ops (gs j "s")
+    Json.mkObj [("ok", S out),
+      ("reads_back", Json.bool (out == gs j "s" || TsParse.strLit (out ++ ": number".toList) == some (gs j "s", ": number".toList)))]
+  | "quote" =>
+    let out := Case.quoteStr ops (gs j "s")
+    Json.mkObj [("ok", S out), ("reads_back", Json.bool (TsParse.strLit (out ++ [';']) == some (gs j "s", [';'])))]
+  | "esc_ok" =>
+    -- the per-character contract `EscOk` of the escape table, evaluated on the given characters
+    let bad := (gs j "s").filter fun c => TsParse.litBody .normal ['x'] (Case.jsEsc (ops.escDebug c) ++ ['y', '"', 'z']) != some (['x', c, 'y'], ['z'])
+    Json.mkObj [("bad", S bad)]
   | "ts_ident" => Json.mkObj [("ok", S (Case.toTsIdent (gs j "s")))]
   | "absolute" => resStr (Path.absolute (gs j "cwd") (gs j "p"))
   | "diff_paths" => resStr (Path.diffPaths (gs j "cwd") (gs j "path") (gs j "base"))
